@@ -17,6 +17,7 @@ from pyoak.origin import NO_ORIGIN, CodeOrigin, get_code_range
 from proto import A, dumps
 from run import Case
 import zoo
+import zoo_c08
 
 PROPERTY = "C08"
 LEAN_MODULE = "PyOak.Props.C08"
@@ -36,14 +37,17 @@ RULE = ("patterns derived from the target node (class alternatives incl. super/o
         "(one vs two blanks, tabs, form feeds), patterns that differ ONLY by a white-space run inside a quoted regex "
         "(must behave differently) mixed with re-spacings BETWEEN tokens of the same token sequence (must behave "
         "identically), compiled back to back in both orders from a cold cache and again warm, each single observation "
-        "compared with the model, also through MultiPatternMatcher; non-trivial = the pattern is accepted and has "
+        "compared with the model, also through MultiPatternMatcher; the empty bracketed sequence `[]` (plain, captured, before a later "
+        "MultiPatternMatcher rule) against "", b"", (), None, non-empty str / bytes / tuples, absent children; a share of "
+        "all batches runs with the library loggers at DEBUG and / or pyoak.config.TRACE_LOGGING (outcomes must not "
+        "change); non-trivial = the pattern is accepted and has "
         ">= 1 field spec; distinct by (text, tree, node)")
 TRUSTED = ["lark LALR engine + contextual lexer re-modelled by a scanner-less recursive-descent parser",
            "re: modelled as a parameter; in the correspondence instantiated by a matcher for the generated sub-language "
            "(literals, '.', '\\d', escaped punctuation, 'x*', '$')",
            "content equality of nodes = content_id equality (digest model of C01); == on property values re-implemented "
            "for int/bool/str/None/enum/tuple/frozenset, other kinds compared by (type, str) text"]
-ASSUMPTIONS = ["don't-care points excluded from generation: bracketed sequence against str values, regex against "
+ASSUMPTIONS = ["don't-care points excluded from generation: NON-EMPTY bracketed sequence against str values, regex against "
                "node- or tuple-valued fields, float compared with non-float by $var, unknown names in `rules`, "
                "attribute names that are not dataclass fields of the node"]
 BUDGET = {"quick": 240, "thorough": 2400}
@@ -303,7 +307,10 @@ class PGen:
             else:
                 spec = self.seq_for(v, depth)
         elif isinstance(v, str):
-            spec = ("val", self.value_for(v, depth))
+            if k < 0.2:
+                spec = ("seq", [], None)    # `[]` matches only the empty tuple, not "" (nor any other str)
+            else:
+                spec = ("val", self.value_for(v, depth))
         else:
             if k < 0.17 and not isinstance(v, ASTNode):
                 # a bracketed sequence against a non-sequence value (never matches)
@@ -568,24 +575,26 @@ def batch(rng, tier):
             return obs_match(arg[0], arg[1], toks)
         return obs_multi(arg[0], arg[1], arg[2], toks)
 
-    # history 1: cold cache before every case
-    first = []
-    for it in todo:
+    cfg = zoo_c08.pick_config(rng)
+    with zoo_c08.configured(cfg):
+        # history 1: cold cache before every case
+        first = []
+        for it in todo:
+            pm._MATCHER_CACHE.clear()
+            first.append(observe(it))
+        # history 2: shuffled, each case after other (unrelated and related) patterns were compiled
         pm._MATCHER_CACHE.clear()
-        first.append(observe(it))
-    # history 2: shuffled, each case after other (unrelated and related) patterns were compiled
-    pm._MATCHER_CACHE.clear()
-    order2 = list(range(len(todo)))
-    rng.shuffle(order2)
-    second = {}
-    for i in order2:
-        NodeMatcher.from_pattern(_unrelated(rng))
-        second[i] = observe(todo[i])[0]
-    # history 3: shuffled again, everything cached
-    rng.shuffle(order2)
-    third = {}
-    for i in order2:
-        third[i] = observe(todo[i])[0]
+        order2 = list(range(len(todo)))
+        rng.shuffle(order2)
+        second = {}
+        for i in order2:
+            NodeMatcher.from_pattern(_unrelated(rng))
+            second[i] = observe(todo[i])[0]
+        # history 3: shuffled again, everything cached
+        rng.shuffle(order2)
+        third = {}
+        for i in order2:
+            third[i] = observe(todo[i])[0]
 
     for i, it in enumerate(todo):
         kind, line, arg, kinds, nontriv, d = it
@@ -604,8 +613,8 @@ def batch(rng, tier):
             N_OK += 1
         if res is not None and res[0]:
             N_TRUE += 1
-        yield Case(kind if accepted else kind + "_reject", line, real, accepted and nontriv, d,
-                   oracle_fail=oracle, sig=sig)
+        yield Case(kind if accepted else kind + "_reject", line, real, accepted and nontriv,
+                   d + ("" if cfg == "plain" else f" [config: {cfg}]"), oracle_fail=oracle, sig=sig)
 
 
 FIXED = [
@@ -755,6 +764,68 @@ def ws_batch(rng):
                        f"defs={defs!r} rules={order!r} node=#{toks.tok(node)} tree={desc}", sig="pmulti|ws-history")
 
 
+# ------------------------------------------------------------------ `[]` only the empty tuple
+
+def empty_seq_batch(rng):
+    """`@f=[]` (plain, captured, several per pattern, through MultiPatternMatcher before a later rule) against fields
+    holding "", b"", (), None, a non-empty str / bytes / tuple, an absent child, an empty and a non-empty child tuple"""
+    BL = zoo_c08.BytesLeaf
+    lf = zoo.Leaf(v=1)
+    nodes = [
+        BL(), BL(data=b"x", text="ab", words=("a",), kids=(lf,), opt=lf), BL(data=b"", text="a", words=(), kids=(lf, lf)),
+        BL(data=b"ab", text="", words=("", ""), kids=()),
+        zoo.Leaf(s=""), zoo.Leaf(s=rng.choice(["a", " ", "()", "[]"])), zoo.Leaf2(s="", extra=()), zoo.Leaf2(s="x", extra=("",)),
+        zoo.Two(a="", b=""), zoo.Two(a="", b="b"), zoo.Opt(None), zoo.Opt(lf), zoo.Tup(()), zoo.Tup((lf,)),
+        zoo.PropZoo(t=(), o=None, lit="a"), zoo.Mixed(lf, (), None, name=""),
+    ]
+    root = zoo.Tup(tuple(nodes))
+    toks = zoo.Tokens()
+    orgs = zoo.OrgTable()
+    tree = zoo.enc_tree(root, toks, orgs)
+    table = zoo.class_table() + [zoo_c08.class_row(BL)]
+    env = [table, orgs.sexp(), [A("nonnode")] + NONNODE, [A("tree"), tree]]
+    desc = zoo.show(root)
+    cfg = zoo_c08.pick_config(rng)
+    for _ in range(6):
+        node = rng.choice(nodes)
+        names = fields_of(node)
+        f = rng.choice(names)
+        g = rng.choice(names)
+        k = rng.random()
+        if k < 0.3:
+            t = ["(", "*", "@", f, "=", "[", "]", ")"]
+        elif k < 0.55:
+            t = ["(", type(node).__name__, "@", f, "=", "[", "]", "->", "e", ")"]
+        elif k < 0.8:
+            t = ["(", "*", "@", f, "=", "[", "]", "->", "e", "@", g, "=", "[", "]", "->", "d", ")"]
+        else:
+            t = ["(", "*", "@", g, "->", "w", "@", f, "=", "[", "]", ")"]
+        text = render(rng, t, spaced=rng.random() < 0.6)
+        pm._MATCHER_CACHE.clear()
+        with zoo_c08.configured(cfg):
+            real, _ = obs_match(text, node, toks)
+            again, _ = obs_match(text, node, toks)
+        line = dumps([A("pmatch")] + env + [[A("text"), text], [A("node"), toks.tok(node)]])
+        yield Case("pmatch_empty_seq", line, real, True,
+                   f"pattern={text!r} node=#{toks.tok(node)}={zoo.show(node)} [config: {cfg}]",
+                   oracle_fail=None if again == real else f"cached result differs: {real} / {again}",
+                   sig="pmatch|empty-seq")
+        # `[]` rule first, a catch-all rule after it: the first *matching* rule must win
+        defs = [("empty", render(rng, ["(", "*", "@", f, "=", "[", "]", "->", "e", ")"])),
+                ("later", render(rng, ["(", "*", "@", f, "->", "v", ")"]))]
+        order = None if rng.random() < 0.6 else ["empty", "later"]
+        pm._MATCHER_CACHE.clear()
+        with zoo_c08.configured(cfg):
+            real, _ = obs_multi(defs, order, node, toks)
+        req = [A("pmulti")] + env + [[A("rules")] + [[n, x] for n, x in defs]]
+        if order is not None:
+            req.append([A("order")] + order)
+        req.append([A("node"), toks.tok(node)])
+        yield Case("pmulti_empty_seq", dumps(req), real, True,
+                   f"defs={defs!r} rules={order!r} node=#{toks.tok(node)}={zoo.show(node)} [config: {cfg}]",
+                   sig="pmulti|empty-seq")
+
+
 def cases(rng: random.Random, tier: str):
     yield from fixed_cases()
     n = 230 if tier == "quick" else 5000
@@ -762,3 +833,5 @@ def cases(rng: random.Random, tier: str):
         yield from batch(rng, tier)
         if i % 3 == 0:
             yield from ws_batch(rng)
+        if i % 4 == 1:
+            yield from empty_seq_batch(rng)
